@@ -252,6 +252,20 @@ Definition wake_eq_tendon (tree_awake : list Z) (trees1 trees2 : list Z) (ta : l
 Record EqModel := {
   eq_type : list Z; eq_obj1id : list Z; eq_obj2id : list Z; eq_objtype : list Z }.
 
+(* the two trees of a CONNECT / WELD / JOINT equality *)
+Definition eq_pair_trees (M : WrapModel) (E : EqModel) (eqid : Z) : Z * Z :=
+  let ty := getZ (eq_type E) eqid in
+  let id1 := getZ (eq_obj1id E) eqid in
+  let id2 := getZ (eq_obj2id E) eqid in
+  if (ty =? EQ_CONNECT) || (ty =? EQ_WELD) then
+    (if getZ (eq_objtype E) eqid =? OBJ_BODY
+     then (getW (body_treeid M) id1, getW (body_treeid M) id2)
+     else (getW (body_treeid M) (getW (site_bodyid M) id1),
+           getW (body_treeid M) (getW (site_bodyid M) id2)))
+  else
+    ((if id1 >=? 0 then getW (body_treeid M) (getW (jnt_bodyid M) id1) else -1),
+     (if id2 >=? 0 then getW (body_treeid M) (getW (jnt_bodyid M) id2) else -1)).
+
 Definition wake_equality_task (M : WrapModel) (E : EqModel) (eq_active : list bool)
     (tree_awake : list Z) (eqid : Z) (ta : list Z) : list Z :=
   if negb (getB eq_active eqid) then ta
@@ -260,16 +274,7 @@ Definition wake_equality_task (M : WrapModel) (E : EqModel) (eq_active : list bo
     let id1 := getZ (eq_obj1id E) eqid in
     let id2 := getZ (eq_obj2id E) eqid in
     if (ty =? EQ_CONNECT) || (ty =? EQ_WELD) || (ty =? EQ_JOINT) then
-      let '(t1, t2) :=
-        if (ty =? EQ_CONNECT) || (ty =? EQ_WELD) then
-          (if getZ (eq_objtype E) eqid =? OBJ_BODY
-           then (getW (body_treeid M) id1, getW (body_treeid M) id2)
-           else (getW (body_treeid M) (getW (site_bodyid M) id1),
-                 getW (body_treeid M) (getW (site_bodyid M) id2)))
-        else
-          ((if id1 >=? 0 then getW (body_treeid M) (getW (jnt_bodyid M) id1) else -1),
-           (if id2 >=? 0 then getW (body_treeid M) (getW (jnt_bodyid M) id2) else -1)) in
-      wake_eq_pair tree_awake t1 t2 ta
+      wake_eq_pair tree_awake (fst (eq_pair_trees M E eqid)) (snd (eq_pair_trees M E eqid)) ta
     else if ty =? EQ_TENDON then
       wake_eq_tendon tree_awake
         (if id1 <? 0 then [] else tendon_trees M id1)
@@ -291,11 +296,12 @@ Definition sweep_task (can : list bool) (t : Z) (ta : list Z) : list Z :=
 Definition sweep_launch (can : list bool) (tasks : list Z) (ta : list Z) : list Z :=
   fold_left (fun ta t => sweep_task can t ta) tasks ta.
 
-(* island_can_sleep starts as wp.ones((nworld, ntree)); atomic_min(.., 0) *)
+(* island_can_sleep starts as wp.ones((nworld, ntree)); atomic_min(.., 0) for every tree of the island
+   whose value is not exactly -1 (not ready yet, or already asleep) *)
 Definition check_island_task (nisland : Z) (tree_island ta : list Z) (t : Z) (ics : list Z) : list Z :=
   let i := getZ tree_island t in
   if (i >=? 0) && (i <? nisland) then
-    (if getZ ta t <? -1 then setZ ics i (Z.min (getZ ics i) 0) else ics)
+    (if negb (getZ ta t =? -1) then setZ ics i (Z.min (getZ ics i) 0) else ics)
   else ics.
 
 Definition check_island_launch (nisland : Z) (tree_island ta : list Z) (tasks : list Z) (ics : list Z) : list Z :=
